@@ -25,7 +25,8 @@ ANCHOR = {"edge": "edge", "center": "center", "quarter": 0.25, "floating": "floa
 
 # regions in real CRSs: (source box l, b, r, t), base resolution in the requested CRS
 REGION = {"4326>3035": ((5.0, 40.0, 25.0, 60.0), 20000.0), "4326>32633": ((12.0, 45.0, 18.0, 55.0), 5000.0), "3577>4326": ((-1500000.0, -4000000.0, 1000000.0, -1500000.0), 0.25),
-          "3035>4326": ((3000000.0, 2000000.0, 5000000.0, 4000000.0), 0.25), "32633>3857": ((300000.0, 5000000.0, 700000.0, 6500000.0), 10000.0)}
+          "3035>4326": ((3000000.0, 2000000.0, 5000000.0, 4000000.0), 0.25), "32633>3857": ((300000.0, 5000000.0, 700000.0, 6500000.0), 10000.0),
+          "3035>4326edge": ((13.996, 50.003, 15.004, 50.997), 0.01), "32633>4326edge": ((14.004, 49.996, 14.997, 50.503), 0.004)}
 
 
 def execute_region(c):
@@ -41,12 +42,17 @@ def execute_region(c):
 
     ev = {"c": c, "outcome": "ok", "crs_ok": True, "pos": [], "o": {"ny": 0, "nx": 0, "edge": [0, 0], "axis_aligned": True, "res_ok": True}}
     try:
-        s, d = c["pair"].split(">")
+        edge = c["pair"].endswith("edge")
+        s, d = c["pair"][:-4].split(">") if edge else c["pair"].split(">")
         (l, b, r, t), res0 = REGION[c["pair"]]
         mx, my = (l + r) / 2, (b + t) / 2
         pts = {"diamond": [(mx, b), (r, my), (mx, t), (l, my)], "triangle": [(l, b), (r, b + (t - b) / 4), (mx, t)], "line": [(l, my), (mx, t), (r, b)],
                "box": [(l, b), (r, b), (r, t), (l, t)], "multipoint": [(l, my), (mx, b), (r, t)],
                "bowtie": [(l, b), (r, t), (r, b), (l, t)]}[c["geo"]]     # a ring that crosses itself (digitised in the wrong vertex order): still a region with an extent
+        if edge:
+            # the region's corners are chosen in the TARGET CRS, a few thousandths of a unit inside / outside whole numbers, and handed over in the source CRS
+            inv = pyproj.Transformer.from_crs(int(d), int(s), always_xy=True)
+            pts = [inv.transform(x, y) for x, y in pts]
         shp = {"line": sg.LineString, "multipoint": sg.MultiPoint}.get(c["geo"], sg.Polygon)(pts)
         res = res0 * c["resk"]
         anchor = {"edge": "edge", "center": "center", "floating": "floating"}[c["anchor"]]
